@@ -213,6 +213,8 @@ pub enum ErrKind {
     Custom,
     /// `#[logos(error(VErr, callback = verr_cb))]`: callback returns VErr::Cb(span)
     CustomCb,
+    /// the same with an inline closure `error(VErr, callback = |lex| ...)` or positional `error(VErr, |lex| ...)`
+    CustomCbInline,
 }
 
 #[derive(Clone, Debug, PartialEq, Eq)]
@@ -327,6 +329,14 @@ impl Def {
             ErrKind::Unit => {}
             ErrKind::Custom => items.push("error = VErr".to_string()),
             ErrKind::CustomCb => items.push(format!("error(VErr, callback = {}_errcb)", self.name.to_lowercase())),
+            ErrKind::CustomCbInline => {
+                let body = "|lex| VErr::FromCb(lex.span().start, lex.span().end)";
+                if self.name.len() % 2 == 0 {
+                    items.push(format!("error(VErr, callback = {body})"))
+                } else {
+                    items.push(format!("error(VErr, {body})"))
+                }
+            }
         }
         if self.has_callbacks() {
             items.push("extras = VExtras".to_string());
@@ -406,7 +416,7 @@ impl Def {
                 "arg_order": p.arg_order, "cb_positional": p.cb_positional, "cb_text": p.cb_text,
             })).collect::<Vec<_>>(),
             "variants": self.variants.iter().map(|v| match v { VarKind::Unit => "unit", VarKind::Slice => "slice", VarKind::U64 => "u64" }).collect::<Vec<_>>(),
-            "error": match self.error { ErrKind::Unit => "unit", ErrKind::Custom => "custom", ErrKind::CustomCb => "customcb" },
+            "error": match self.error { ErrKind::Unit => "unit", ErrKind::Custom => "custom", ErrKind::CustomCb => "customcb", ErrKind::CustomCbInline => "customcbinline" },
             "logos_order": self.logos_order, "logos_split": self.logos_split, "extra_logos_items": self.extra_logos_items, "raw_generics": self.raw_generics, "raw_variants": self.raw_variants,
             "source": self.render(),
         })
@@ -441,7 +451,7 @@ impl Def {
             }).collect(),
             variants: v["variants"].as_array().unwrap().iter().map(|x| match x.as_str().unwrap() {
                 "unit" => VarKind::Unit, "slice" => VarKind::Slice, _ => VarKind::U64 }).collect(),
-            error: match v["error"].as_str().unwrap() { "unit" => ErrKind::Unit, "custom" => ErrKind::Custom, _ => ErrKind::CustomCb },
+            error: match v["error"].as_str().unwrap() { "unit" => ErrKind::Unit, "custom" => ErrKind::Custom, "customcbinline" => ErrKind::CustomCbInline, _ => ErrKind::CustomCb },
             logos_order: v["logos_order"].as_array().map(|a| a.iter().map(us).collect()).unwrap_or_default(),
             logos_split: v["logos_split"].as_bool().unwrap_or(false),
             extra_logos_items: v["extra_logos_items"].as_array().map(|a| a.iter().map(|x| x.as_str().unwrap().to_string()).collect()).unwrap_or_default(),
